@@ -51,6 +51,17 @@ type Ctl__A struct{ erpc.CallCtx }
 
 func (c *Ctl__A) AaBb(a *Arg) (*Res, *erpc.Status) { noteRan("Ctl__A.AaBb"); return &Res{Tag: "Ctl__A.AaBb"}, nil }
 
+// CtlTwin / PshTwin: two methods of one controller that the http mapper sends to the same name.
+type CtlTwin struct{ erpc.CallCtx }
+
+func (c *CtlTwin) AaBb(a *Arg) (*Res, *erpc.Status)   { noteRan("CtlTwin.AaBb"); return &Res{Tag: "CtlTwin.AaBb"}, nil }
+func (c *CtlTwin) Aa__Bb(a *Arg) (*Res, *erpc.Status) { noteRan("CtlTwin.Aa__Bb"); return &Res{Tag: "CtlTwin.Aa__Bb"}, nil }
+
+type PshTwin struct{ erpc.PushCtx }
+
+func (c *PshTwin) AaBb(a *Arg) *erpc.Status   { noteRan("PshTwin.AaBb"); return nil }
+func (c *PshTwin) Aa__Bb(a *Arg) *erpc.Status { noteRan("PshTwin.Aa__Bb"); return nil }
+
 type PshA struct{ erpc.PushCtx }
 
 func (c *PshA) AaBb(a *Arg) *erpc.Status { noteRan("PshA.AaBb"); return nil }
@@ -92,6 +103,10 @@ func regItem(r routeReg, item string) (ns string, names []string) {
 		return "call", r.RouteCall(new(Ctl__A))
 	case "PshA":
 		return "push", r.RoutePush(new(PshA))
+	case "CtlTwin":
+		return "call", r.RouteCall(new(CtlTwin))
+	case "PshTwin":
+		return "push", r.RoutePush(new(PshTwin))
 	case "FnCall":
 		return "call", []string{r.RouteCallFunc(FnCall)}
 	case "FnPush":
@@ -179,7 +194,8 @@ func drvRouter(args []string) int {
 				if pair == "CtlA+Ctl__A" && c.S("mapper") == "rpc" {
 					pair = "none"
 				}
-				rec.Emit("Conflict", "pair", pair, "mapper", c.S("mapper"), "exit", code)
+				ec, _ := c["expectconflict"].(bool)
+				rec.Emit("Conflict", "pair", pair, "mapper", c.S("mapper"), "exit", code, "expectconflict", ec)
 			}
 		}
 		if err != nil {
